@@ -265,6 +265,10 @@ class CallMixin:
             if isinstance(v, (VView,)) or (isinstance(v, VRef) and isinstance(v.typ, ty.TDict)):
                 return self.list_of_keys(v)
             raise Unsupported('list(x)')
+        if name == 'tuple' and len(args) == 1 and isinstance(args[0], VRef) and isinstance(args[0].typ, ty.TList) \
+                and 'tuple' not in self.builtin_hooks:
+            # a tuple of symbolic length: an element-wise copy nobody can mutate (read as a fresh list object)
+            return self.list_copy(args[0])
         if name == 'enumerate':
             return VView('enumerate', args[0])
         if name == 'str':
